@@ -822,11 +822,13 @@ func retriedElsewhere(e *wireEnv, out *wireOutcome, api int16) bool {
 // ---------------------------------------------------------------------------
 // C20
 
-var hostile32 = []int64{-2147483648, -2, -1, 0, 1, 65536, 2147483647}
-var hostileVar = []int64{-2147483648, -2, -1, 0, 1, 65536, 2147483647, 4294967296, 9223372036854775807}
+// (2^29+1, 2^30+1: counts whose product with an element width of 8 or 4 wraps
+// around 32 bits to a small positive number)
+var hostile32 = []int64{-2147483648, -2, -1, 0, 1, 65536, 2147483647, 1<<29 + 1, 1<<30 + 1}
+var hostileVar = []int64{-2147483648, -2, -1, 0, 1, 65536, 2147483647, 1<<29 + 1, 1<<30 + 1, 4294967296, 9223372036854775807}
 
 const lenMaxFields = 96
-const lenValues = 12 // hostile values + (true-1, true+1, rest+1)
+const lenValues = 14 // hostile values + (true-1, true+1, rest+1)
 
 // (x 2: the mutated frame delivered whole, or only up to just past the mutated
 // field, after which the connection ends)
